@@ -199,6 +199,11 @@ def corpus_cases():
         ("Value", "equal_to_approx", [10 ** 400], {}, [1.5, 10 ** 400, "a"]),
         ("Value", "factor_of", [2.5], {}, [10 ** 400, 5, 2 ** 1024]),
         ("Value", "in_", [[1, 1, True]], {}, [1, 1.0, True, 2]),
+        ("Value", "keys_contain_all_of", ["zz", [1]], {}, [{"a": 1}, {"zz": 1}, 5]),
+        ("Value", "keys_contain_all_of", ["a", [1], "zz"], {}, [{"a": 1}, {"b": 1}]),
+        ("Value", "keys_contain_any_of", [[1], "a"], {}, [{"a": 1}, {"b": 1}]),
+        ("Value", "items_contain", [], {"trial_dict": 1}, [{"trial_dict": 1}, {"a": 1}]),
+        ("Value", "items_contain", [], {"items": 1}, [{"items": 1}, {"a": 1}]),
         # empty top-level documents: `Data({})` / `Data([])` is a TypeError for every condition
         ("Value", "truthy", [], {}, {}), ("Key", "equal_to", ["a"], {}, {}), ("Index", "equal_to", [0], {}, []), ("Value", "truthy", [], {}, []),
         ("Value", "in_", ["abc"], {}, ["a", "", "bc", "d", 1, None]),
@@ -209,11 +214,17 @@ def corpus_cases():
     return out
 
 
+def _corner_filter():
+    from props import corners
+    return corners.filter_cases()
+
+
 def generate(rng, n, tier):
     g = Gen(rng, pct_strings=True, max_depth=3 if tier == "quick" else 4)
     # the primitives the callables are made of (App. C), against the model: sampled / exhaustive over the atom pool
     from props import prims
     cases = prims.generate(rng, 600, tier)
+    cases += _corner_filter()
     n += len(cases)
     for (cls, ctor, args, kwargs, doc) in corpus_cases():
         c = make_case(cls, ctor, args, kwargs, doc)
